@@ -30,8 +30,8 @@ from .. import coqterm as T
 from .. import searchlib as S
 from ..pymap_env import DictEnv, MaildirEnv, run as run_async
 
-HEADER = ('From PV Require Import Base.Prelude Wire.SeqSet Search.Text Search.Keys Search.Msg '
-          'Search.Spec Search.Model Search.SearchCheck.\n')
+HEADER = ('From PV Require Import Base.Prelude Wire.SeqSet Search.Text Search.Keys Search.SentDate '
+          'Search.Msg Search.Spec Search.Model Search.SearchCheck.\n')
 
 RECORDED: list = []
 _installed = False
@@ -406,7 +406,7 @@ def _view_ok_for_model(view: dict) -> str | None:
     return None
 
 
-def section_search(ctx, backend: str = 'dict') -> None:
+def section_search(ctx, backend: str = 'dict') -> list:
     _install_recorder()
     rng = ctx.rng
     if backend == 'dict':
@@ -475,9 +475,15 @@ def section_search(ctx, backend: str = 'dict') -> None:
         'depth_histogram': dict(sorted(stats['depth'].items())),
         'key_histogram': dict(sorted(stats['kinds'].items())),
         'law_checks': stats['laws']}
-    shard = min(6, max(1, -(-len(box_cases) // 16)))
-    bad = ctx.run_cases('search_boxes' + sfx, HEADER, 'pool * list (list entry * list query)',
-                        box_cases, 'chk_box' + sfx, shard=shard, jobs=16)
+    shard = min(6, max(1, -(-len(box_cases) // 10)))
+
+    def after(bad):
+        _locate(ctx, sfx, bad, box_keep)
+    return [{'name': 'search_boxes' + sfx, 'typ': 'pool * list (list entry * list query)',
+             'cases': box_cases, 'checker': 'chk_box' + sfx, 'shard': shard, 'after': after}]
+
+
+def _locate(ctx, sfx, bad, box_keep) -> None:
     # name the queries of the disagreeing mailboxes
     single, single_keep = [], []
     for bi in bad[:4]:
@@ -520,7 +526,7 @@ def _contains_impl(needle: bytes, hay: bytes, header: bool) -> bool:
     return loaded.contains(needle)
 
 
-def section_strings(ctx) -> None:
+def section_strings(ctx) -> list:
     from pymap.search import SearchCriteria, BodySearchCriteria
     rng = ctx.rng
     cases, keep = [], []
@@ -542,7 +548,7 @@ def section_strings(ctx) -> None:
         for other in sorted(others):
             if len(other) == 1:
                 add(ch, other)
-    for _ in range(ctx.scale(400, 6000)):
+    for _ in range(ctx.scale(250, 6000)):
         hay = ''.join(rng.choice(alphabet + 'bcxy ') for _ in range(rng.randint(0, 12)))
         if hay and rng.random() < 0.6:
             i = rng.randrange(len(hay))
@@ -569,15 +575,17 @@ def section_strings(ctx) -> None:
                                     T.boolean(obs)))
                 keep.append(('bytes', needle, hay, obs))
                 ctx.count(('contains', needle, hay, header), nontrivial=obs)
-    for j in ctx.run_cases('search_in', HEADER, 'list N * list N * bool', cases, 'chk_in',
-                           shard=600)[:5]:
-        kind, needle, hay, obs = keep[j]
-        if (kind == 'str' and S.ci_in(needle, hay) != obs) or \
-                (kind == 'bytes' and S.ci_in(needle, hay) != obs):
-            ctx.failure('string_keys', f'substring test of {needle!r} in {hay!r} answers {obs}: not '
-                        'the case-insensitive (ASCII) substring relation',
-                        {'needle': repr(needle), 'hay': repr(hay)}, {'kind': 'substring'})
-        ctx.disagreement('search_in', {'kind': kind, 'needle': repr(needle), 'hay': repr(hay), 'impl': obs})
+    def after_in(bad):
+        for j in bad[:5]:
+            kind, needle, hay, obs = keep[j]
+            if S.ci_in(needle, hay) != obs:
+                ctx.failure('string_keys', f'substring test of {needle!r} in {hay!r} answers {obs}: '
+                            'not the case-insensitive (ASCII) substring relation',
+                            {'needle': repr(needle), 'hay': repr(hay)}, {'kind': 'substring'})
+            ctx.disagreement('search_in', {'kind': kind, 'needle': repr(needle), 'hay': repr(hay),
+                                           'impl': obs})
+    jobs = [{'name': 'search_in', 'typ': 'list N * list N * bool', 'cases': cases,
+             'checker': 'chk_in', 'shard': 500, 'after': after_in}]
     # bytes(value, 'utf-8', 'replace') as BodySearchCriteria does
     ucases, ukeep = [], []
     sig = inspect.signature(BodySearchCriteria.__init__).parameters
@@ -589,12 +597,100 @@ def section_strings(ctx) -> None:
         ucases.append(T.pair(T.codepoints(s), T.bytes_(crit.value)))
         ukeep.append(s)
         ctx.count(('utf8', s))
-    for j in ctx.run_cases('search_utf8', HEADER, 'str * bytes', ucases, 'chk_utf8')[:5]:
-        ctx.disagreement('search_utf8', {'string': repr(ukeep[j])})
+    def after_utf8(bad):
+        for j in bad[:5]:
+            ctx.disagreement('search_utf8', {'string': repr(ukeep[j])})
+    jobs.append({'name': 'search_utf8', 'typ': 'str * bytes', 'cases': ucases, 'checker': 'chk_utf8',
+                 'shard': 300, 'after': after_utf8})
+    return jobs
+
+
+# ----------------------------------------- sent date and header-name models
+def section_dates(ctx) -> list:
+    """Search/SentDate.v against DateHeader (through pymap.mime.parsed) and
+    header_key against MessageHeader's map keys.  Returns run_cases jobs."""
+    from pymap.mime import MessageContent
+    from pymap.mime.parsed import ParsedHeaders
+    rng = ctx.rng
+
+    def observe(v: str):
+        hs = list(ParsedHeaders._parse([[('Date: ' + v).encode('utf-8', 'surrogateescape')]]))
+        if not hs:
+            return 'absent'
+        dt = hs[0].datetime
+        return None if dt is None else (dt.year, dt.month, dt.day)
+    vals = [(S._date_header(rng, rng.choice(S.DAYS)), True) for _ in range(ctx.scale(150, 1500))]
+    base = [v for v, _ in vals[:ctx.scale(40, 300)]]
+    alphabet = ' ,:+-0123456789JanFebDecmonTueGMTESTZ().\t_'
+    for b in base:
+        for _ in range(5):
+            s = list(b)
+            for _ in range(rng.randint(1, 2)):
+                k = rng.randrange(len(s) + 1)
+                op = rng.random()
+                if op < 0.4:
+                    s.insert(k, rng.choice(alphabet))
+                elif op < 0.7 and s:
+                    del s[min(k, len(s) - 1)]
+                elif s:
+                    s[min(k, len(s) - 1)] = rng.choice(alphabet)
+            vals.append((''.join(s), False))
+    vals += [(x, False) for x in [
+        '', ' ', 'garbage', '32 Foo 2019', '1 Jan 2019', '1 Jan 2019 10:00', '1 Jan 2019 10:00+0100',
+        'Tue,1 Jan 2019 10:00:00 +0000', '1 Jan 19 10:00 GMT', '1 Jan 70 10:00 est', '1 Jan 69 1:00 Z',
+        '1 Jan 68 1:00 Z', '31 Feb 2019 10:00 +0000', '29 Feb 2020 23:59:60 +0000', '29 Feb 2019 10:00 Z',
+        '29 Feb 1900 10:00 Z', '29 Feb 2000 10:00 Z', '31 Apr 2019 1:00 Z', '30 Apr 2019 1:00 Z',
+        '1 Jan 2019 24:00 +0000', '1 Jan 2019 23:60 +0000', '1 Jan 2019 10:00 +2400',
+        '1 Jan 2019 10:00 +2359', '1 Jan 2019 10:00 -2400', '1 Jan 2019 10:00 -0000',
+        '1 Jan 2019 10:00 +9999', '1 Jan 2019 10:00 +0099', 'Jan 1 2019 10:00 +0000',
+        '1 January 2019 10:00 +0000', '1 december 2019 10:00 +0000', '1 Jan 10:00 2019 +0000',
+        '1 Jan 2019, 10:00 +0000', '1, Jan 2019 10:00, +0000', 'mon 1 Jan 2019 10:00 +0000',
+        'Mon, 1 Jan 2019 10.00.00 +0000', '01-Jan-19 10:00 GMT', '1 Jan 0 10:00 +0000',
+        '1 Jan 9999 10:00 +0000', '1 Jan 10000 10:00 +0000', '0 Jan 2019 10:00 +0000',
+        '1 Jan 2019 1:2:3 xyz', '1 Jan 2019 10:00 +01_00', '+1 Jan 2019 10:00 +0000',
+        '1 Jan 2019 10:00:00:00 +0000', '1 Jan 2019 x:00 +0000', 'a,b, 1 Jan 2019 10:00 +0000', ',',
+        'x,', '1 Jan 2019 10:00 (comment)', '1 Jan 2019 10:00 +0000 (c)', '1 Jan +0000 10:00 2019',
+        '1 Jan 2019 10:00 pst', '1 Jan 2019 10:00 PDT', '1 Jan 2019 10:00 utc', '1 Jan 2019 10 +0000']]
+    cases, keep = [], []
+    for v, must in vals:
+        o = observe(v)
+        if o == 'absent':
+            continue
+        cases.append(T.pair(T.codepoints(v), 'None' if o is None else f'(Some {S.enc_date(o)})',
+                            T.boolean(must)))
+        keep.append(('date', v, o))
+        ctx.count(('sentdate', v), nontrivial=o is not None)
+    def after_dates(bad):
+        for j in bad[:5]:
+            ctx.disagreement('search_sent_date', {'value': repr(keep[j][1]), 'impl_date': keep[j][2]})
+    jobs = [{'name': 'search_sent_date', 'typ': 'str * option date * bool', 'cases': cases,
+             'checker': 'chk_sent_date', 'shard': 300, 'after': after_dates}]
+    # field names as written -> key of the header map
+    kcases, kkeep = [], []
+    names = [b'Subject', b'SUBJECT ', b' subject', b'X-Tag\t', b'\tTo \t', b'x\x0bY', b'A\x0c', b'a b',
+             b'\x1cQ', b'\xc9cole', b'[', b'Z@`{', b'']
+    for _ in range(ctx.scale(60, 600)):
+        names.append(bytes(rng.choice(b'AZaz@[`{ \t\x0b\x0c-') for _ in range(rng.randint(1, 6))))
+    for nm in names:
+        if b':' in nm or b'\n' in nm or b'\r' in nm:
+            continue
+        content = MessageContent.parse(nm + b': v\r\n\r\nx')
+        keys = [bytes(k) for k in content.header.parsed]
+        if len(keys) != 1:
+            continue          # not taken as a field line (e.g. starts with white space)
+        kcases.append(T.pair(T.bytes_(nm), T.bytes_(keys[0])))
+        kkeep.append(('name', nm, keys[0]))
+        ctx.count(('hdrkey', nm))
+    def after_keys(bad):
+        for j in bad[:5]:
+            ctx.disagreement('search_header_key', {'written': repr(kkeep[j][1]), 'impl_key': repr(kkeep[j][2])})
+    jobs.append({'name': 'search_header_key', 'typ': 'bytes * bytes', 'cases': kcases,
+                 'checker': 'chk_header_key', 'shard': 400, 'after': after_keys})
+    return jobs
 
 
 # ------------------------------------------------------------- disabled keys
-def section_disabled(ctx) -> None:
+def section_disabled(ctx) -> list:
     rng = ctx.rng
     names = sorted(S.KNAMES - {b'SEQSET', b'KEYSET'})
     cases, keep = [], []
@@ -628,15 +724,37 @@ def section_disabled(ctx) -> None:
                                 T.boolean(refused)))
             keep.append((dis, prog, refused))
             ctx.count(('disabled', tuple(dis), repr(prog)), nontrivial=refused)
-    for j in ctx.run_cases('search_disabled', HEADER, 'list kname * list key * bool', cases,
-                           'chk_disabled')[:5]:
-        dis, prog, refused = keep[j]
-        uses = any(_has(k, lambda x: _wire_name(x) in dis) for k in prog)
-        if uses != refused:
-            ctx.failure('disabled_keys', f'disabled {dis}, program {prog!r}: refused={refused}',
-                        {'program': repr(prog), 'disabled': repr(dis)}, {'kind': 'disabled'})
-        ctx.disagreement('search_disabled', {'disabled': repr(dis), 'program': repr(prog),
-                                             'impl_refused': refused})
+    def after(bad):
+        for j in bad[:5]:
+            dis, prog, refused = keep[j]
+            uses = any(_has(k, lambda x: _wire_name(x) in dis) for k in prog)
+            if uses != refused:
+                ctx.failure('disabled_keys', f'disabled {dis}, program {prog!r}: refused={refused}',
+                            {'program': repr(prog), 'disabled': repr(dis)}, {'kind': 'disabled'})
+            ctx.disagreement('search_disabled', {'disabled': repr(dis), 'program': repr(prog),
+                                                 'impl_refused': refused})
+    return [{'name': 'search_disabled', 'typ': 'list kname * list key * bool', 'cases': cases,
+             'checker': 'chk_disabled', 'shard': 100, 'after': after}]
+
+
+def section_refusals(ctx) -> None:
+    """An empty parenthesised list is not a search key (RFC 3501: "(" search-key
+    *(SP search-key) ")"); an empty KEYSET would match every message."""
+    async def one(line):
+        env = await DictEnv().start()
+        a = await env.login()
+        await a.send(b'a1 SELECT INBOX\r\n')
+        r = await a.cmd(b'q ' + line + b'\r\n')
+        await a.send_eof()
+        return r
+    for line in (b'SEARCH ()', b'SEARCH NOT ()', b'SEARCH OR () ALL', b'SEARCH (())', b'UID SEARCH ()',
+                 b'SEARCH ALL ()', b'SEARCH (ALL ())'):
+        r = run_async(one(line))
+        ctx.count(('refusal', line), nontrivial=True)
+        status, ids, tagged = S.parse_search(r)
+        if status != b'BAD':
+            ctx.failure('empty_list_refused', f'{line!r} is answered {r!r}',
+                        {'wire': line.decode()}, {'kind': 'empty_list_accepted'})
 
 
 def _wire_name(k) -> bytes:
@@ -680,11 +798,42 @@ def run(ctx) -> None:
         'dict backend and a smaller maildir run; CPython re/str/bytes are the semantics of the '
         'implementation side',
     ]
-    ctx.check_proofs(['Search/SearchCheck'])
-    section_strings(ctx)
-    section_search(ctx, 'dict')
-    section_search(ctx, 'maildir')
-    section_disabled(ctx)
+    # the translator: finite tables of the parser / dispatch / requirement, from the code
+    from .. import searchtable
+    try:
+        tables, changed = searchtable.write_key_table()
+        ctx.extra['key_table'] = {'rewritten': changed, 'keywords': len(tables['grammar']['rows']),
+                                  'dispatch_rows': len(tables['dispatch']),
+                                  'not_repeats': tables['grammar']['not_repeats'],
+                                  'bare_set_uid': tables['grammar']['bare_set_uid'],
+                                  'keyset_nonempty': tables['grammar']['keyset_nonempty']}
+    except searchtable.TranslatorError as exc:
+        ctx.broken.append(f'translator (harness/searchtable.py) does not recognise the code: {exc}')
+    # proofs are re-checked while the implementation runs
+    import threading
+    from concurrent.futures import ThreadPoolExecutor
+    prover = threading.Thread(target=ctx.check_proofs, args=(['Search/SearchCheck'],))
+    prover.start()
+    jobs = []
+    jobs += section_search(ctx, 'dict')
+    jobs += section_search(ctx, 'maildir')
+    jobs += section_strings(ctx)
+    jobs += section_dates(ctx)
+    jobs += section_disabled(ctx)
+    section_refusals(ctx)
+    prover.join()
+
+    total = sum(-(-len(j['cases']) // j['shard']) for j in jobs) or 1
+
+    def go(job):
+        # about 16 coqc processes at a time over all groups
+        n_shards = -(-len(job['cases']) // job['shard'])
+        return ctx.run_cases(job['name'], HEADER, job['typ'], job['cases'], job['checker'],
+                             shard=job['shard'], jobs=max(1, min(n_shards, round(16 * n_shards / total))))
+    with ThreadPoolExecutor(max_workers=len(jobs)) as ex:
+        results = list(ex.map(go, jobs))
+    for job, bad in zip(jobs, results):
+        job['after'](bad)
 
 
 def replay(ctx, obj) -> int:
